@@ -238,12 +238,13 @@ theorem protected_from_child (fuel : Nat) (g : Inh) (caller defined : Node)
 theorem protected_from_self (fuel : Nat) (g : Inh) (c : Node) : protectedOk fuel g c c = true := by
   simp [protectedOk]
 
-/-- `c₀ → c₁ → … → target`: every class of the chain has exactly the next one as its parent list -/
+/-- `c₀ → c₁ → … → target`: every class of the chain has the next one as its FIRST parent (what a class gets
+from `class C < B`: `AddParentNode` puts the superclass ahead of Object and of later includes) -/
 def linked (g : Inh) : List Node → Prop
-  | a :: b :: rest => parentsOfNode g a = [b] ∧ linked g (b :: rest)
+  | a :: b :: rest => (∃ more, parentsOfNode g a = b :: more) ∧ linked g (b :: rest)
   | _ => True
 
-/-- **A protected method may be called from a descendant at any depth** (single-inheritance chain): for a chain
+/-- **A protected method may be called from a descendant at any depth** (superclass chain): for a chain
 `c → d₁ → … → dₙ → target` of distinct classes, none of them entered before, the walk finds `target` — for every
 chain length, given at least that much fuel. -/
 theorem ancestor_along_chain (g : Inh) (target : Node) :
@@ -257,7 +258,7 @@ theorem ancestor_along_chain (g : Inh) (target : Node) :
     obtain ⟨f, rfl⟩ : ∃ f, fuel = f + 1 := ⟨fuel - 1, by omega⟩
     have hc : seen.contains c = false := by
       simpa [List.contains_eq_mem] using hs c (by simp)
-    have hp : parentsOfNode g c = [target] := by simpa [linked] using hl
+    obtain ⟨more, hp⟩ : ∃ more, parentsOfNode g c = target :: more := by simpa [linked] using hl
     have hc' : c ∉ seen := hs c (by simp)
     simp [isAncestor, hc', hp, anyAncestor]
   | cons d rest ih =>
@@ -265,7 +266,8 @@ theorem ancestor_along_chain (g : Inh) (target : Node) :
     obtain ⟨f, rfl⟩ : ∃ f, fuel = f + 1 := ⟨fuel - 1, by simp at hf; omega⟩
     have hc : seen.contains c = false := by
       simpa [List.contains_eq_mem] using hs c (by simp)
-    have hl' : parentsOfNode g c = [d] ∧ linked g (d :: rest ++ [target]) := by simpa [linked] using hl
+    have hl' : (∃ more, parentsOfNode g c = d :: more) ∧ linked g (d :: rest ++ [target]) := by simpa [linked] using hl
+    obtain ⟨more, hpc⟩ := hl'.1
     have hn' : (d :: rest).Nodup := (List.nodup_cons.mp hn).2
     have hcd : ∀ x ∈ d :: rest, x ≠ c := by
       intro x hx hxc; subst hxc; exact (List.nodup_cons.mp hn).1 hx
@@ -275,7 +277,7 @@ theorem ancestor_along_chain (g : Inh) (target : Node) :
           · exact hcd x hx h
           · exact hs x (List.mem_cons_of_mem _ hx) h)
       (by simp at hf ⊢; omega)
-    simp only [isAncestor, hc, hl'.1, anyAncestor]
+    simp only [isAncestor, hc, hpc, anyAncestor]
     by_cases hdt : (d == target) = true
     · simp [hdt]
     · simp only [hdt]
@@ -360,10 +362,10 @@ theorem protected_outsider_reported (fuel : Nat) (g : Inh) (caller defined : Nod
   | false => simp [h1]
   | true => exact absurd ((isAncestor_sound g defined fuel).1 caller [] h) hun
 
-/-- non-vacuity: `class C < B`, `class B < A` is a linked chain of distinct classes -/
+/-- non-vacuity: `class C < B`, `class B < A` (each also with the implicit Object ancestor) is a linked chain of distinct classes -/
 example :
     let n := fun (c : String) => ({ frame := [], cls := c.toList } : Node)
-    let g : Inh := [(([], "C".toList), [n "B"]), (([], "B".toList), [n "A"])]
+    let g : Inh := [(([], "C".toList), [n "B", objectNode]), (([], "B".toList), [n "A", objectNode])]
     linked g (n "C" :: [n "B"] ++ [n "A"]) ∧ (n "C" :: [n "B"]).Nodup := by
   simp [linked, parentsOfNode, parentsOf, Frame.lookup]
 
